@@ -11,20 +11,20 @@ PROPERTY = "C04"
 SHARDS = {"quick": 6, "thorough": 16}
 RULE = (
     "cases: provenance matrix - nodes {lon/lat only, xyz only (face-vertex constructor), both, both with a "
-    "non-unit radius, both with integer-typed Cartesian coordinates} x face centres {absent, lon/lat, xyz, both} x edge centres {absent, lon/lat, xyz, both} "
+    "non-unit radius, both with integer-typed Cartesian coordinates, xyz only in float32 (unit sphere / kilometres) or int32 metres, lon/lat from a dask-backed UGRID dataset} x face centres {absent, lon/lat, xyz, both} x edge centres {absent, lon/lat, xyz, both} "
     "(supplied centres are deliberately offset from the corner mean so supplied and derived values cannot be "
     "confused) x longitudes given in 0..360 or -180..180 x meshes with nodes on a pole / the antimeridian / the "
     "prime meridian x first-access order of the six coordinate groups (720 orders; components of a group read lon,lat / x,y,z or reversed; ranges checked at the first read and again at the end; sampled in quick, thorough "
     "walks all 720 on small meshes). Oracle: independent lon/lat <-> unit-vector conversion. Non-trivial = "
     "provenance other than lon/lat-nodes-only, or a node within 1 degree of a pole / the antimeridian."
 )
-ASSUMPTIONS = ["no node with 1-1e-8 < |z| < 1 except exactly at a pole (the library's documented pole snap)",
+ASSUMPTIONS = ["for float32 Cartesian sources 'to rounding' means single-precision rounding (1e-6 rad for derived centres, 3e-7 for unit length) - the grid keeps the source's dtype", "no node with 1-1e-8 < |z| < 1 except exactly at a pole (the library's documented pole snap)",
                "supplied edge centres come together with the edge_node_connectivity that defines the edge order"]
 GROUPS = ["node_ll", "node_xyz", "edge_ll", "edge_xyz", "face_ll", "face_xyz"]
 ORDERS = list(itertools.permutations(range(6)))
 MIN_EVAL = {"quick": {"same_point": 800, "lon_lat_range": 800, "derived_unit_length": 300, "derived_centre_is_corner_mean": 200, "normalize_keeps_direction": 600},
             "thorough": {"same_point": 15000, "lon_lat_range": 15000, "derived_unit_length": 5000, "derived_centre_is_corner_mean": 3500, "normalize_keeps_direction": 10000}}
-NODE_PROV = ["ll", "xyz", "both", "both_radius", "both_int"]
+NODE_PROV = ["ll", "xyz", "both", "both_radius", "both_int", "xyz_f32", "xyz_f32_km", "xyz_i32_m", "ugrid_dask"]
 CEN_PROV = ["none", "ll", "xyz", "both"]
 
 
@@ -33,7 +33,7 @@ def cases(tier, seed):
     n = 450 if tier == "quick" else 45000
     for i in range(n):
         d = gen.random_mesh(rng, 60 if tier == "quick" else 250, families=gen.ALL_FAMILIES)
-        yield {"mesh": d, "node": NODE_PROV[int(rng.integers(0, 5))], "face": CEN_PROV[int(rng.integers(0, 4))],
+        yield {"mesh": d, "node": NODE_PROV[int(rng.integers(0, len(NODE_PROV)))], "face": CEN_PROV[int(rng.integers(0, 4))],
                "edge": CEN_PROV[int(rng.integers(0, 4))], "lon360": bool(rng.random() < 0.5),
                "order": int(rng.integers(0, 720)), "cseed": int(rng.integers(0, 10**6)), "cradius": bool(rng.random() < 0.3), "rev": bool(rng.random() < 0.5)}
     if tier == "thorough":
@@ -58,7 +58,31 @@ def build(case, m):
     kw = {}
     radius = 6371.0e3 if case["node"] == "both_radius" else 1.0
     cradius = 6371.0e3 if case.get("cradius") else radius
-    if case["node"] == "xyz":
+    if case["node"] == "ugrid_dask":
+        # a UGRID dataset whose variables are dask arrays (what open_grid(path, chunks=...) hands to the reader)
+        import xarray as xr
+
+        ds = xr.Dataset()
+        ds["mesh"] = xr.DataArray(0, attrs={"cf_role": "mesh_topology", "topology_dimension": 2, "node_coordinates": "nlon nlat", "face_node_connectivity": "fnc"})
+        ds["nlon"] = xr.DataArray(_lon(lon, lon360), dims=["nn"])
+        ds["nlat"] = xr.DataArray(np.array(lat), dims=["nn"])
+        ds["fnc"] = xr.DataArray(m.padded(), dims=["nf", "nmax"], attrs={"cf_role": "face_node_connectivity", "start_index": 0, "_FillValue": ux.INT_FILL})
+        if case["face"] in ("ll", "both"):
+            C = ref.unit(np.array([ref.unit(m.ring_pos(i).mean(axis=0)) for i in range(m.n_face)]) + 0.01 * rng.normal(size=(m.n_face, 3)))
+            cl, ca = ref.xyz_to_lonlat(C)
+            ds["flon"] = xr.DataArray(_lon(cl, lon360), dims=["nf"])
+            ds["flat"] = xr.DataArray(np.array(ca), dims=["nf"])
+            ds["mesh"].attrs["face_coordinates"] = "flon flat"
+            supplied.add("face_ll")
+        g = U.open_grid(ds.chunk({"nn": max(1, m.n_node // 2), "nf": max(1, m.n_face // 3)}))
+        supplied.add("node_ll")
+        return g, supplied
+    if case["node"] in ("xyz_f32", "xyz_f32_km", "xyz_i32_m") and len({len(f) for f in m.faces}) == 1:
+        # Cartesian corner arrays in a narrow type: single precision on the unit sphere / in kilometres, 32-bit integers in metres
+        fv = np.array([m.xyz[f] for f in m.faces])
+        fv = {"xyz_f32": fv.astype(np.float32), "xyz_f32_km": (fv * 6371.0).astype(np.float32), "xyz_i32_m": np.rint(fv * 6371000.0).astype(np.int32)}[case["node"]]
+        return U.Grid.from_face_vertices(fv, latlon=False), {"node_xyz"}
+    if case["node"] in ("xyz", "xyz_f32", "xyz_f32_km", "xyz_i32_m"):
         w = max(len(f) for f in m.faces)
         fv = np.full((m.n_face, w, 3), float(ux.INT_FILL))
         for i, f in enumerate(m.faces):
@@ -127,7 +151,9 @@ def run_case(ctx, case):
     except Exception as e:
         ctx.check("no_exception", False, {"stage": "construct", "node": case["node"], "face": case["face"], "edge": case["edge"], "exc": core.exc_sig(e)}, {"exc": repr(e), "case": case})
         return
-    prov = {"node": case["node"], "face": case["face"] if case["node"] != "xyz" else "none", "edge": case["edge"] if case["node"] != "xyz" else "none"}
+    xyz_only = case["node"] in ("xyz", "xyz_f32", "xyz_f32_km", "xyz_i32_m")
+    prov = {"node": case["node"], "face": ("face_ll" in supplied and "ll" or "none") if case["node"] == "ugrid_dask" else (case["face"] if not xyz_only else "none"),
+            "edge": case["edge"] if not (xyz_only or case["node"] == "ugrid_dask") else "none"}
     first = {}
     order = [GROUPS[k] for k in ORDERS[case["order"]]]
     rev = bool(case.get("rev"))
@@ -172,20 +198,28 @@ def run_case(ctx, case):
     nodeP = ref.lonlat_to_xyz(*final["node_ll"])
     # integer-rounded vectors have slightly different lengths: the mean of the supplied vectors is then not the mean of the
     # unit vectors, and the statement speaks of points on one sphere - the clause is not evaluated for that provenance
-    equal_radius = case["node"] != "both_int"
+    equal_radius = case["node"] not in ("both_int", "xyz_i32_m")
+    # a single-precision source: what the grid stores and derives in the source's own precision is "to rounding" at 6e-8
+    f32 = case["node"] in ("xyz_f32", "xyz_f32_km")
+    # (near a pole a single-precision z resolves latitude only to sqrt(2 * 6e-8) = 3.5e-4 rad: band of 2e-3 within 4.5e-3 rad of a pole)
+    ctol, utol = (1e-6, 3e-7) if f32 else (1e-9, 1e-12)
     if equal_radius and "face_ll" not in supplied and "face_xyz" not in supplied:
         rings = ux.grid_face_rings(g)
         want = np.array([ref.unit(nodeP[r].mean(axis=0)) for r in rings])
         got = ref.lonlat_to_xyz(*final["face_ll"])
         # centres inside the library's pole-snapping band (|z| > 1 - 1e-8, i.e. within 1.42e-4 rad of a pole) are reported at the pole
-        band = np.where(np.abs(want[:, 2]) > 1 - 1.01e-8, 1.5e-4, 1e-9)
+        zb, wide = (1 - 1e-5, 2e-3) if f32 else (1 - 1.01e-8, 1.5e-4)
+        node_in_band = np.abs(nodeP[:, 2]) > zb  # a corner inside the band may itself be reported at the pole
+        band = np.where((np.abs(want[:, 2]) > zb) | np.array([bool(node_in_band[r].any()) for r in rings]), wide, ctol)
         err = float(np.max(ref.angle(want, got) - band))
         ctx.check("derived_centre_is_corner_mean", err < 0, {"kind": "face", "prov": prov["node"]}, {"max_err_over_tolerance_rad": err, "case": case})
     if equal_radius and "edge_ll" not in supplied and "edge_xyz" not in supplied:
         en = np.asarray(g.edge_node_connectivity.values)
         want = ref.unit(nodeP[en[:, 0]] + nodeP[en[:, 1]])
         got = ref.lonlat_to_xyz(*final["edge_ll"])
-        band = np.where(np.abs(want[:, 2]) > 1 - 1.01e-8, 1.5e-4, 1e-9)
+        zb, wide = (1 - 1e-5, 2e-3) if f32 else (1 - 1.01e-8, 1.5e-4)
+        node_in_band = np.abs(nodeP[:, 2]) > zb
+        band = np.where((np.abs(want[:, 2]) > zb) | node_in_band[en[:, 0]] | node_in_band[en[:, 1]], wide, ctol)
         err = float(np.max(ref.angle(want, got) - band))
         ctx.check("derived_centre_is_corner_mean", err < 0, {"kind": "edge", "prov": prov["node"]}, {"max_err_over_tolerance_rad": err, "case": case})
     # supplied centres are carried (same positions)
@@ -195,11 +229,11 @@ def run_case(ctx, case):
         g.normalize_cartesian_coordinates()
         after = {k: np.stack(read_group(g, k + "_xyz"), axis=-1) for k in ("node", "edge", "face")}
         for k in ("node", "edge", "face"):
-            sig = {"kind": k, "prov": prov[k], "radius": case["node"] in ("both_radius", "both_int"), "centre_radius_only": bool(case.get("cradius")) and case["node"] != "both_radius"}
+            sig = {"kind": k, "prov": prov[k], "radius": case["node"] in ("both_radius", "both_int", "xyz_f32_km", "xyz_i32_m"), "centre_radius_only": bool(case.get("cradius")) and case["node"] != "both_radius"}
             ang = float(np.max(ref.angle(before[k], after[k])))
-            ctx.check("normalize_keeps_direction", ang < 1e-12, sig, {"max_angle": ang, "case": case})
+            ctx.check("normalize_keeps_direction", ang < utol, sig, {"max_angle": ang, "case": case})
             dev = float(np.max(np.abs(np.linalg.norm(after[k], axis=-1) - 1.0)))
-            ctx.check("normalize_gives_unit_length", dev < 1e-12, sig, {"max_dev": dev, "case": case})
+            ctx.check("normalize_gives_unit_length", dev < utol, sig, {"max_dev": dev, "case": case})
     except Exception as e:
         ctx.check("no_exception", False, {"stage": "normalize", "exc": core.exc_sig(e)}, {"exc": repr(e), "case": case})
     if case["node"] != "ll" or prov["face"] != "none" or prov["edge"] != "none" or near_special:
